@@ -25,9 +25,9 @@ theorem any_schema_roundtrip (S : Schema) (T : String → Bytes → Bytes) (hwf 
 theorem any_schema_factory_agrees (S : Schema) (T : String → Bytes → Bytes) (hwf : WF S = true)
     (a c : String) (da dc : StructDef) (hfa : S.find a = some (.struct da)) (hab : da.abstract = true)
     (hchild : (c, dc) ∈ S.children a) (n : Nat) (v : Val) (b : Bytes)
-    (henc : (recN S T n).enc c v = .ok b) (hadm : admN S T n c v = true) :
-    (recN S T n).dec a b = .ok v := by
-  have := (C01.factory_agrees (T := T) hwf hfa hab hchild henc hadm []).1
+    (henc : (recN S T n).enc c v = .ok b) (hadm : admN S T n a v = true) :
+    (recN S T n).dec a b = .ok v ∧ (recN S T n).dec c b = .ok v := by
+  have := C01.factory_agrees (T := T) hwf hfa hab hchild henc hadm []
   rwa [List.append_nil] at this
 
 /-- … and its struct encodings are the declared layout (schema conformance, member by member) -/
